@@ -560,6 +560,17 @@ func rwExec(calls []string, shape string, fault int) ([]rwItem, string) {
 	if _, err := f.Handle(http.MethodGet, "/x", handler); err != nil {
 		return nil, "Handle: " + err.Error()
 	}
+	// the recorder under test is the one embedded in a recycled context: an earlier request on the same tree wrote,
+	// flushed and hijacked its connection; nothing of that may be visible in this one
+	if _, err := f.Handle(http.MethodGet, "/pre", func(c fox.Context) {
+		c.Writer().WriteHeader(http.StatusAccepted)
+		_, _ = c.Writer().Write([]byte("pre"))
+		_ = c.Writer().FlushError()
+		_, _, _ = c.Writer().Hijack()
+	}); err != nil {
+		return nil, "Handle: " + err.Error()
+	}
+	f.ServeHTTP(ctxHijackWriter{newRecWriter()}, newReq(http.MethodGet, "example.com", "/pre"))
 	f.ServeHTTP(uw, newReq(http.MethodGet, "example.com", "/x"))
 	if len(items) != len(calls) {
 		fail("handler did not run all calls")
